@@ -212,7 +212,7 @@ func genOne(r *rng.R, idx int, seed uint64, mode string, gated, concrete bool, t
 	}
 	if mode == "uphttp" || mode == "uphttps" {
 		p.ReplyVariant = r.Intn(len(upReplies))
-		if v := p.ReplyVariant; v == 5 || v == 6 {
+		if v := p.ReplyVariant; v == 5 || v == 6 || (v >= 12 && v != 15) {
 			// a 2xx reply to CONNECT declaring a body: if the proxy honours the declaration the tunnel
 			// loses bytes or never starts; do not wait long for that
 			p.TimeoutMs = 6000
